@@ -9,6 +9,7 @@ import (
 	"time"
 
 	"verif.local/sim/kernel"
+	_ "verif.local/sim/props/c12"
 	_ "verif.local/sim/props/c17"
 )
 
@@ -95,6 +96,12 @@ func TestSim(t *testing.T) {
 			nv := ""
 			for _, v := range res.Viol {
 				nv += " " + v.Key()
+			}
+			if os.Getenv("VERIF_DUMP") == strconv.Itoa(i) {
+				fmt.Println("SUMMARY", res.Summary)
+				for _, h := range res.History {
+					fmt.Println("H", h)
+				}
 			}
 			fmt.Printf("DIGEST run=%d sig=%016x tape=%d hist=%d simtime=%d viol=[%s] infra=%q\n", i, res.Sig, len(tape.Rec), len(res.History), res.SimTime, nv, res.Infra)
 		}
